@@ -1,3 +1,9 @@
 package vh
-import ("testing";"testing/synctest";"oras.land/oras-go/v2/content/memory")
-func TestSmoke(t *testing.T){ synctest.Test(t, func(t *testing.T){ _ = memory.New() }) }
+
+import (
+	"oras.land/oras-go/v2/content/memory"
+	"testing"
+	"testing/synctest"
+)
+
+func TestSmoke(t *testing.T) { synctest.Test(t, func(t *testing.T) { _ = memory.New() }) }
